@@ -109,6 +109,7 @@ func (cb *CircuitBreaker) Execute(fn func() error) error {
 	}
 
 	// Increment request count for half-open state
+	vgate("cb:count")
 	cb.mutex.Lock()
 	if cb.state == StateHalfOpen {
 		cb.requestCount++
@@ -137,6 +138,7 @@ func (cb *CircuitBreaker) beforeRequest() error {
 	now := time.Now()
 
 	// Fast path: read-only check for most common case (StateClosed)
+	vgate("cb:read")
 	cb.mutex.RLock()
 	state := cb.state
 
@@ -148,6 +150,7 @@ func (cb *CircuitBreaker) beforeRequest() error {
 
 		// Only acquire write lock if reset is needed
 		if needsReset {
+			vgate("cb:reset")
 			cb.mutex.Lock()
 			// Double-check after acquiring write lock
 			if cb.lastFailureTime.Add(cb.interval).Before(now) {
@@ -164,6 +167,7 @@ func (cb *CircuitBreaker) beforeRequest() error {
 		cb.mutex.RUnlock()
 
 		if canRetry {
+			vgate("cb:tohalf")
 			cb.mutex.Lock()
 			// Double-check state hasn't changed
 			if cb.state == StateOpen && cb.nextAttempt.Before(now) {
@@ -194,6 +198,7 @@ func (cb *CircuitBreaker) beforeRequest() error {
 
 // afterRequest updates the circuit breaker state after a request
 func (cb *CircuitBreaker) afterRequest(success bool) {
+	vgate("cb:after")
 	cb.mutex.Lock()
 	defer cb.mutex.Unlock()
 
